@@ -74,7 +74,20 @@ SPECIES = {
     "sname": dict(sname="m2", charge=0, mult=1, atoms=("O", "H", "H"), solvent=None, cart=(), dist=(), pcs=None),
     "comp": dict(sname="m", charge=0, mult=1, atoms=("S", "H", "H"), solvent=None, cart=(), dist=(), pcs=None),
 }
-KWS = {"k1": ("k1",), "k2": ("k1", "k2")}
+# species for optimisations run by autodE's own optimisers on the analytic mock method "surf"
+_HE3 = dict(sname="m", charge=0, mult=1, atoms=("He", "He", "He"), solvent=None, cart=(), dist=(), pcs=None)
+OSPECIES = {
+    "obase": dict(_HE3),
+    "odist": dict(_HE3, dist=(((0, 1), 1.0),)),
+    "odist2": dict(_HE3, dist=(((0, 1), 1.0004),)),
+    "odist3": dict(_HE3, dist=(((0, 1), 1.2),)),
+    "opcs": dict(_HE3, pcs=((1.0, 0.0, 0.0, 3.0),)),
+    "osname": dict(_HE3, sname="m2"),
+    "ocomp": dict(_HE3, atoms=("He", "He", "Ne")),
+}
+SPECIES.update(OSPECIES)
+HE3_XYZ = ((0.0, 0.0, 0.0), (1.1, 0.0, 0.0), (0.3, 1.0, 0.1))
+KWS = {"k1": ("k1",), "k2": ("k1", "k2"), "o1": (), "o2": ("maxopt40",)}
 
 
 def spec(name, meth, kw, sp):
@@ -90,12 +103,23 @@ def universe(full):
         for m in ("xtb", "orca", "orca_smd"):
             for k in ("k1", "k2"):
                 for s in SPECIES:
+                    if s in OSPECIES:
+                        continue
                     if m == "orca_smd" and s not in ("base", "solvent"):
                         continue
                     if n in ("a b", " a") and s not in ("base", "charge", "pcs"):
                         continue
                     U.append(spec(n, m, k, s))
+    # a name that CONTAINS another calculation's full name away from its start
+    U += [spec("xa", m, k, "base") for m in ("xtb", "orca") for k in ("k1", "k2")]
+    # optimisations through CalculationExecutorO (trajectory <name>_opt_trj.zip)
+    U += [spec(n, "surf", k, s) for n in ("a", "b") for k in ("o1", "o2") for s in OSPECIES
+          if n == "a" or s in ("obase", "odist")]
     return U
+
+
+def is_full(U):
+    return any(sp["name"] == " a" for sp in U)
 
 
 def conc_universe(nworkers):
@@ -108,7 +132,7 @@ def prop_fields(sp):
         "requested_name": sp["name"], "method": sp["meth"].split("_")[0], "keywords": tuple(sp["kw"]),
         "species_name": sp["sname"], "composition": tuple(sp["atoms"]), "charge": sp["charge"],
         "multiplicity": sp["mult"], "solvent": sp["solvent"],
-        "solvation_model": {"xtb": "gbsa", "orca": "cpcm", "orca_smd": "smd"}[sp["meth"]],
+        "solvation_model": {"xtb": "gbsa", "orca": "cpcm", "orca_smd": "smd", "surf": None}[sp["meth"]],
         "cartesian_constraints": frozenset(sp["cart"]), "distance_constraints": tuple(sp["dist"]),
         "point_charges": sp["pcs"],
     }
@@ -186,6 +210,69 @@ def impl_setup():
 
     XTB.execute = fake_execute
     ORCA.execute = fake_execute
+
+    import numpy as np
+    import autode.methods as amethods
+    from autode.calculations.types import CalculationType as CT
+    from autode.hessians import Hessian
+    from autode.values import Gradient, PotentialEnergy
+    from autode.wrappers.keywords import HessianKeywords, KeywordsSet, MaxOptCycles, OptKeywords
+    from autode.wrappers.methods import Method
+
+    class Surf(Method):
+        """Analytic three-body harmonic surface: no external io, energy + gradient (+ Hessian), so
+        optimisations go through CalculationExecutorO and autodE's own optimisers.  The energy is
+        offset by -(j+1), j = index of the request it is run for: the tag of the result."""
+
+        def __init__(self):
+            super().__init__(name="surf", keywords_set=KeywordsSet(), doi_list=[])
+
+        def __repr__(self):
+            return "Surf"
+
+        @property
+        def uses_external_io(self):
+            return False
+
+        def implements(self, calculation_type):
+            return calculation_type in (CT.energy, CT.gradient, CT.hessian)
+
+        def terminated_normally_in(self, calc):
+            return True
+
+        def version_in(self, calc):
+            return "1.0"
+
+        @staticmethod
+        def eg(X):
+            e, g = 0.0, np.zeros_like(X)
+            for i, j, k, r0 in ((0, 1, 0.2, 1.0), (1, 2, 0.2, 1.1), (0, 2, 0.2, 1.2)):
+                v = X[i] - X[j]
+                r = np.linalg.norm(v)
+                e += 0.5 * k * (r - r0) ** 2
+                g[i] += k * (r - r0) * v / r
+                g[j] -= k * (r - r0) * v / r
+            return e, g
+
+        def execute(self, calc):
+            cur["invoked"].append(calc.name)
+            mol = calc.molecule
+            X = np.array(mol.coordinates, dtype=float)
+            e, g = self.eg(X)
+            mol.energy = PotentialEnergy(e - (cur["j"] + 1.0), units="Ha")
+            mol.gradient = Gradient(g, units="Ha/ang")
+            if isinstance(calc.input.keywords, HessianKeywords):
+                x, h = X.flatten(), 1e-5
+                H = np.zeros((len(x), len(x)))
+                for i in range(len(x)):
+                    xp, xm = x.copy(), x.copy()
+                    xp[i] += h
+                    xm[i] -= h
+                    H[i] = (self.eg(xp.reshape(-1, 3))[1] - self.eg(xm.reshape(-1, 3))[1]).flatten() / (2 * h)
+                mol.hessian = Hessian(0.5 * (H + H.T), atoms=mol.atoms, units="Ha/ang^2")
+
+    amethods.get_lmethod = lambda: Surf()      # the optimiser's initial low-level Hessian
+    _IMPL.update(Surf=Surf, OptKeywords=OptKeywords, MaxOptCycles=MaxOptCycles)
     _IMPL.update(ade=ade, aex=aex, Atom=Atom, Calculation=Calculation, ORCA=ORCA, XTB=XTB, PointCharge=PointCharge,
                  SPK=SinglePointKeywords, smd=smd, cur=cur)
     return _IMPL
@@ -194,6 +281,15 @@ def impl_setup():
 def build(sp):
     """-> (Calculation, molecule) for a request spec: fresh objects every time."""
     I = impl_setup()
+    if sp["meth"] == "surf":
+        meth = I["Surf"]()
+        atoms = [I["Atom"](lab, *xyz) for lab, xyz in zip(sp["atoms"], HE3_XYZ)]
+        mol = I["ade"].Molecule(name=sp["sname"], atoms=atoms, charge=sp["charge"], mult=sp["mult"])
+        if sp["dist"]:
+            mol.constraints.distance = {tuple(k): v for k, v in sp["dist"]}
+        kws = I["OptKeywords"]([I["MaxOptCycles"](40)] if sp["kw"] else [])
+        pcs = None if sp["pcs"] is None else [I["PointCharge"](q, x, y, z) for q, x, y, z in sp["pcs"]]
+        return I["Calculation"](name=sp["name"], molecule=mol, method=meth, keywords=kws, point_charges=pcs), mol
     if sp["meth"] == "xtb":
         meth = I["XTB"]()
     else:
@@ -214,16 +310,30 @@ def build(sp):
     return calc, mol
 
 
+def build_detached(sp):
+    """build() in an empty scratch directory: constructing an optimisation executor already
+    consults (and writes) the registry of the current directory."""
+    import tempfile
+    cwd = os.getcwd()
+    d = tempfile.mkdtemp(prefix="c15_detached_", dir=os.path.join(VERIF, ".work"))
+    os.chdir(d)
+    try:
+        return build(sp)
+    finally:
+        os.chdir(cwd)
+        shutil.rmtree(d, ignore_errors=True)
+
+
 def real_id(sp, name):
     """str(executor) of the real code for request sp carrying calculation name `name`."""
-    calc, _ = build(sp)
+    calc, _ = build_detached(sp)
     calc._executor.name = name
     return str(calc._executor)
 
 
 def model_fields(sp):
     """Field values of the model request, read off the implementation objects."""
-    calc, mol = build(sp)
+    calc, mol = build_detached(sp)
     ex = calc._executor
     st = ex.method.implicit_solvation_type
     cart = mol.constraints.cartesian
@@ -250,6 +360,10 @@ def read_dir():
                 outs.append([f, first[2] == "normal", int(first[1])])
             else:
                 outs.append([f, False, -1])
+        elif f.endswith("_opt_trj.zip"):
+            from autode.opt.optimisers.crfo import CRFOptimiser
+            e = CRFOptimiser.from_file(f).final_coordinates.e
+            outs.append([f, True, -1 if e is None else int(round(-float(e))) - 1])
     reg = []
     if os.path.exists(REGISTER):
         for line in open(REGISTER):
@@ -290,8 +404,10 @@ def run_ops_impl(U, ops, workdir, start_fresh=True):
             en = None if e is None else int(round(-float(e))) - 1
             obs.append([calc._executor.name, bool(cur["invoked"]), en, raised])
             auxs.append(aux)
+            is_opt = U[j]["meth"] == "surf"
             snaps.append(dict(before=sorted(before), after_run=sorted(listing_after_run), after=sorted(os.listdir()),
-                              out=calc.output.filename, inputs=list(calc.input.filenames)))
+                              out=(f"{calc._executor.name}_opt_trj.zip" if is_opt else calc.output.filename),
+                              inputs=([] if is_opt else list(calc.input.filenames))))
         files, outs, reg = read_dir()
     finally:
         os.chdir(cwd)
@@ -331,6 +447,8 @@ def oracle_sequence(U, ops, res):
         if not invoked and (outf not in produced or not produced[outf][0]):
             bad.append(("reuse|output-not-normal", f"op {k}: {sp['tag']} skipped the external program although {outf} "
                         + ("did not exist" if outf not in produced else "had not terminated normally")))
+        if sp["meth"] == "surf":
+            oc = "ONormal"               # the optimiser always saves its trajectory
         if invoked and oc != "ONoOutput":
             produced[outf] = (oc == "ONormal", j)
         if en is not None:
@@ -345,13 +463,14 @@ def oracle_sequence(U, ops, res):
         # files this calculation (re)wrote: its declared inputs; when the program ran, output + scratch
         mine = set(sn["inputs"]) | {f for f in sn["after_run"] if f not in sn["before"]}
         if invoked and oc != "ONoOutput":
-            mine |= {outf, f"{name}_side.tmp"}
+            mine |= {outf, f"{name}_side.tmp", f"{name}_opt_trj.xyz"}
         for f in mine:
             if f is not None and f != REGISTER:
                 creator[f] = name
         for f in set(sn["before"]) | set(sn["after_run"]):
             if f not in sn["after"] and f != REGISTER and creator.get(f, name) != name:
-                bad.append(("clean_up|foreign-file-deleted|" + cm, f"op {k}: clean-up of {name!r} (mode {cm}) deleted {f!r}, "
+                bad.append(("clean_up|foreign-file-deleted|" + cm + ("|name-is-prefix" if f.startswith(name) else "|name-is-not-a-prefix"),
+                            f"op {k}: clean-up of {name!r} (mode {cm}) deleted {f!r}, "
                                                              f"a file of calculation {creator[f]!r}"))
         for f in list(produced):
             if f not in sn["after"]:
@@ -418,14 +537,15 @@ def cnat_opt(x):
     return "None" if x is None else f"(Some {x})"
 
 
-CORR_DEFS = ("Definition H (j : nat) (oc : outcome) (cm : cmode) (aux : list str) : hop := (j, oc, cm, aux).\n"
+CORR_DEFS = ("Definition H (j : nat) (oc : outcome) (cm : cmode) (aux : list str) : hgop := HExt (j, oc, cm, aux).\n"
              "Definition O (n : str) (i : bool) (e : option nat) (r : bool) : hobs := (n, i, e, r).\n"
              "Definition L (n : str) (c : nat) : str * nat := (n, c).\n"
              "Definition F (n : str) (b : bool) (c : nat) : str * bool * nat := (n, b, c).\n")
 
 
 def term_seq(nm, ops, res, cut=None, uname="U"):
-    hl = [nm.t("hop", f"H {j} {oc} {cm} {coq_list([nm(a) for a in aux])}") for (j, oc, cm), aux in zip(ops, res["aux"])]
+    hl = [nm.t("hgop", f"HOpt {j}" if oc == "OPT" else f"H {j} {oc} {cm} {coq_list([nm(a) for a in aux])}")
+          for (j, oc, cm), aux in zip(ops, res["aux"])]
     eobs = coq_list([nm.t("hobs", f"O {nm(n)} {cbool(i)} {cnat_opt(e)} {cbool(r)}") for n, i, e, r in res["obs"]])
     ereg = coq_list([nm.t("(str * nat)%type", f"L {nm(n)} {c}") for n, c in res["regc"]])
     efiles = coq_list([nm(f) for f in res["files"]])
@@ -444,7 +564,7 @@ def executors_for(U):
     its .name is changed before str() is taken."""
     key = tuple(sp["tag"] for sp in U)
     if key not in _EXECS:
-        _EXECS[key] = [build(sp)[0]._executor for sp in U]
+        _EXECS[key] = [build_detached(sp)[0]._executor for sp in U]
     return _EXECS[key]
 
 
@@ -544,11 +664,16 @@ def _conc_worker(w, U, schedule, workdir, barrier, q):
 
 
 # ------------------------------------------------------------------------------------------------
+def mkop(U, j, oc, cm):
+    """optimisation requests have no scripted program outcome and no clean-up mode"""
+    return (j, "OPT", "CNone") if U[j]["meth"] == "surf" else (j, oc, cm)
+
+
 def fixed_clusters(U):
     idx = {sp["tag"]: j for j, sp in enumerate(U)}
 
     def o(tag, oc="ONormal", cm="CNone"):
-        return (idx[tag], oc, cm)
+        return mkop(U, idx[tag], oc, cm)
     return [
         ("identity-fields", [o("a|xtb|k1|base"), o("a|xtb|k2|base"), o("a|xtb|k1|charge"), o("a|xtb|k1|pcs"),
                              o("a|xtb|k1|base", "OAbnormal"), o("a|xtb|k1|base", "ONormal", "CEverything")]),
@@ -559,6 +684,10 @@ def fixed_clusters(U):
                           o("a|xtb|k1|base", "ONormal", "CEverything"), o("a_xtb|xtb|k1|base", "OAbnormal", "CEverything")]),
         ("constraints", [o("a|xtb|k1|cart"), o("a|xtb|k1|dist"), o("a|xtb|k1|dist2"), o("a|xtb|k1|base"),
                          o("a|xtb|k1|dist", "OAbnormal"), o("a|xtb|k1|comp", "ONormal", "CEverything")]),
+        ("opt-trajectory", [o("a|surf|o1|obase"), o("a|surf|o1|odist"), o("a|surf|o1|odist3"), o("a|surf|o2|odist"),
+                            o("a|surf|o1|opcs"), o("a|xtb|k1|base", "ONormal", "CEverything")]),
+        ("substring", [o("xa|xtb|k1|base"), o("a|xtb|k1|base"), o("a|xtb|k1|base", "ONormal", "CEverything"),
+                       o("xa|xtb|k1|base", "ONormal", "CEverything"), o("a|xtb|k2|base"), o("xa|xtb|k2|base", "OAbnormal")]),
         ("whitespace", [o("a b|xtb|k1|base"), o("a b|xtb|k2|base"), o("a|xtb|k1|base"), o("a b|xtb|k1|charge", "OAbnormal"),
                         o("a b|xtb|k1|base", "ONormal", "CEverything"), o("a|xtb|k2|base", "ONoOutput", "CAuto")]),
     ]
@@ -570,7 +699,7 @@ def random_cluster(ctx, U, size=6):
     ops = []
     while len(ops) < size:
         j = ctx.rng.choice(same) if ctx.rng.random() < 0.75 else ctx.rng.randrange(len(U))
-        op = (j, ctx.rng.choices(OUTCOMES, weights=(6, 2, 1))[0], ctx.rng.choices(CMODES, weights=(5, 1, 1, 2))[0])
+        op = mkop(U, j, ctx.rng.choices(OUTCOMES, weights=(6, 2, 1))[0], ctx.rng.choices(CMODES, weights=(5, 1, 1, 2))[0])
         if op not in ops:
             ops.append(op)
     return ops
@@ -601,7 +730,7 @@ KNOWN_KEY_OF = {   # general-oracle key -> stable finding key (call site | input
     "shared-name|whitespace-in-name": "_fix_unique|registry-line-with-whitespace-name-ignored",
     "reused-result|whitespace-in-name": "_fix_unique|registry-line-with-whitespace-name-ignored",
     "same-request|different-name|whitespace-in-history": "_fix_unique|registry-line-with-whitespace-name-ignored",
-    "clean_up|foreign-file-deleted|CEverything": "clean_up|prefix-match-deletes-other-calculation",
+    "clean_up|foreign-file-deleted|CEverything|name-is-prefix": "clean_up|prefix-match-deletes-other-calculation",
 }
 MAX_REPORTS = 10
 
@@ -619,7 +748,7 @@ def report_oracle(ctx, U, ops, fails, stream, seen):
             continue
         ctx.finding(fkey, what, {"kind": "sequence", "stream": stream,
                                  "ops": [[U[j]["tag"], oc, cm] for j, oc, cm in ops],
-                                 "universe_full": len(U) > 150, "oracle_key": key})
+                                 "universe_full": is_full(U), "oracle_key": key})
 
 
 def targeted_oracles(ctx, seen, only=None):
@@ -632,12 +761,18 @@ def targeted_oracles(ctx, seen, only=None):
           dict(big_b, name="a", meth="xtb", kw=KWS["k1"], tag="a|xtb|k1|H100Be"),    # 5
           spec("-a", "xtb", "k1", "base"), spec("_-a", "xtb", "k1", "base"),         # 6 7
           spec("a b", "xtb", "k1", "base"), spec("a b", "xtb", "k2", "base"),        # 8 9
-          spec("a", "xtb", "k2", "base")]                                            # 10
+          spec("a", "xtb", "k2", "base"),                                            # 10
+          spec("a", "surf", "o1", "odist"), spec("a", "surf", "o1", "odist3"),       # 11 12
+          spec("xa", "xtb", "k1", "base")]                                           # 13
     N = ("ONormal", "CNone")
     hist = {
         "point-charges": [(0, *N), (1, *N)], "distance-rounding": [(2, *N), (3, *N)], "atoms>100": [(4, *N), (5, *N)],
         "hyphen": [(6, *N), (7, *N)], "whitespace": [(8, *N), (9, *N)],
         "prefix-cleanup": [(0, *N), (10, *N), (0, "ONormal", "CEverything")],
+        # optimisations with different constraint values under one requested name, then the first again
+        "opt-trajectory": [(11, "OPT", "CNone"), (12, "OPT", "CNone"), (11, "OPT", "CNone")],
+        # `xa_xtb.*` contains the full name `a_xtb` away from its start: cleaning `a` must keep it
+        "substring-cleanup": [(13, *N), (0, *N), (0, "ONormal", "CEverything"), (13, *N)],
     }
     if only is not None:
         hist = {k: v for k, v in hist.items() if k == only}
@@ -688,14 +823,12 @@ def correspondence_sequences(ctx, U, full, seen, nm):
     for k in range(nrand):
         clusters.append((f"random{k}", random_cluster(ctx, U)))
     seqs, sinfo = [], []
+    qd = {"identity-fields": 4, "names-prefix": 4, "whitespace": 4}
+    td = {"identity-fields": 6, "names-prefix": 5, "orca-solvation": 5, "constraints": 5, "whitespace": 5}
     for ci, (label, cl) in enumerate(clusters):
-        d = depth if ci < 5 else (3 if not full else 4)
-        if not full and ci in (1, 3):
-            d = 3
-        if full and ci in (0, 2):
-            d = 6 if ci == 0 else 5
-            cl6 = cl[:4] + cl[5:] if d == 6 else cl     # depth 6 over 5 operations
-            cl = cl6
+        d = td.get(label, 4) if full else qd.get(label, 3)
+        if d == 6:
+            cl = cl[:4] + cl[5:]                         # depth 6 over 5 operations
         for s in all_sequences(cl, d):
             seqs.append(s)
             sinfo.append(("exhaustive:" + label, d))
@@ -704,7 +837,7 @@ def correspondence_sequences(ctx, U, full, seen, nm):
         ln = ctx.rng.randint(6, 12)
         cl = random_cluster(ctx, U, size=5)
         seqs.append([ctx.rng.choice(cl) if ctx.rng.random() < 0.8 else
-                     (ctx.rng.randrange(len(U)), ctx.rng.choice(OUTCOMES), ctx.rng.choice(CMODES)) for _ in range(ln)])
+                     mkop(U, ctx.rng.randrange(len(U)), ctx.rng.choice(OUTCOMES), ctx.rng.choice(CMODES)) for _ in range(ln)])
         sinfo.append(("random-long", ln))
     ctx.log(f"running {len(seqs)} request sequences on the implementation ({len(clusters)} clusters)")
     t0 = time.time()
@@ -719,7 +852,7 @@ def correspondence_sequences(ctx, U, full, seen, nm):
                 ctx.finding("_fix_unique|does-not-terminate",
                             f"the request history did not finish within {SEQ_TIMEOUT:.0f} s (normally milliseconds): non-terminating name search",
                             {"kind": "sequence", "stream": stream, "ops": [[U[j]["tag"], oc, cm] for j, oc, cm in ops],
-                             "universe_full": len(U) > 150, "oracle_key": "hang"})
+                             "universe_full": is_full(U), "oracle_key": "hang"})
             continue
         ctx.count(stream.split(":")[0], tuple(ops), nontrivial=nontrivial(U, ops),
                   sample={"ops": [[U[j]["tag"], oc, cm] for j, oc, cm in ops], "names": [o[0] for o in res["obs"]]})
@@ -737,7 +870,7 @@ def restart_stream(ctx, U, full, seen, nm):
     n = 6 if not full else 48
     seqs = []
     cl = dict(fixed_clusters(U))
-    pool = cl["identity-fields"] + cl["names-prefix"] + cl["orca-solvation"]
+    pool = cl["identity-fields"] + cl["names-prefix"] + cl["orca-solvation"] + cl["opt-trajectory"][:4]
     for _ in range(n):
         ln = ctx.rng.randint(3, 7)
         seqs.append([ctx.rng.choice(pool) for _ in range(ln)])
@@ -755,7 +888,7 @@ def restart_stream(ctx, U, full, seen, nm):
         for pi, part in enumerate((ops[:cut], ops[cut:])):
             jf = os.path.join(ctx.work, f"restart{k}_{pi}.json")
             with open(jf, "w") as f:
-                json.dump({"full": len(U) > 150, "ops": part, "dir": d, "js": [o[0] for o in ops]}, f)
+                json.dump({"full": is_full(U), "ops": part, "dir": d, "js": [o[0] for o in ops]}, f)
             env = dict(os.environ, PYTHONPATH=f"{REPO}:{VERIF}/harness", PYTHONHASHSEED="0", VERIF_REPO=REPO)
             p = subprocess.run([sys.executable, os.path.abspath(__file__), "--restart-worker", jf], env=env,
                                stdout=subprocess.PIPE, stderr=subprocess.PIPE, text=True, timeout=300)
